@@ -633,6 +633,31 @@ def c16_json_roundtrip(tier, seed):
                     if pg.from_json(json.loads(json.dumps(js))).evaluate(dict(env)).constant != ref_truth(m, env):
                         _viol(r, "c16.meaning-changed", {"model": m.to_text(), "json": js, "env": env})
                         break
+    # Imply / Not around an ANONYMOUS node over one leaf, every small threshold and both signs (a writer that "unwraps" such a
+    # condition back to the bare variable must not lose threshold or sign)
+    import puan
+    for sgn in (1, -1):
+        for v in (-2, -1, 0, 1, 2):
+            for b in ((0, 1), (-1, 1), (0, 3), (-2, 0)):
+                for kind in ("imply-condition", "imply-consequence", "not"):
+                    def mk():
+                        inner = pg.AtLeast(v, [puan.variable("x", b)], sign=sgn)
+                        if kind == "imply-condition":
+                            return pg.Imply(inner, "y", variable="T")
+                        if kind == "imply-consequence":
+                            return pg.Imply("y", inner, variable="T")
+                        return pg.All(pg.Not(inner), "y", variable="T")
+                    m = mk()
+                    if m.errors() != []:
+                        continue
+                    js = json.loads(json.dumps(m.to_json()))
+                    r["evaluations"] += 1
+                    r["_seen"].add(("anonymous-single-leaf", kind, sgn, v))
+                    for x in range(b[0], b[1] + 1):
+                        for y in (0, 1):
+                            env = {"x": x, "y": y}
+                            if pg.from_json(json.loads(json.dumps(js))).evaluate(dict(env)).constant != mk().evaluate(dict(env)).constant:
+                                _viol(r, "c16.meaning-changed", {"model": m.to_text(), "json": js, "env": env})
     return _finish(r)
 
 
